@@ -42,6 +42,8 @@ def run(c):
         ev = x["event"] or {}
         kind = x["trace"].split("/")[0]
         sig = "protocol|%s|%s|%s" % (kind, ev.get("ev"), x.get("invariant") or "not-enabled")
+        if kind == "fault" and "|" in x["trace"]:
+            sig += "|" + x["trace"].split("|")[1]      # the injected fault: <call kind>@<commit step>
         classes[sig] += 1
         c.report(sig, "registry-call trace leaves the handle protocol at event %d: %s" % (x["index"], json.dumps(ev)[:300]),
                  dict(trace=x["trace"], rejected_index=x["index"], invariant=x.get("invariant"), events=x["events"][:x["index"] + 1][-40:]))
